@@ -295,11 +295,52 @@ def tab_value(inp, seed, j):
         return np.array(rng.normal() * mag)
     if kind == "one_elem":
         return np.array([rng.normal() * mag])
+    lay = (seed + 3 * j) % 4          # memory layout of array inputs: logical (C) order is what the header names refer to
     if kind == "vec":
-        return rng.normal(size=int(inp["len"])) * mag
+        v = rng.normal(size=int(inp["len"])) * mag
+        if lay == 1:
+            return v[::-1]                                 # reversed view (negative stride)
+        if lay == 2:
+            return np.repeat(v, 2)[::2]                    # strided view
+        return v
     if kind == "mat":
-        return rng.normal(size=(2, int(inp["cols"]))) * mag
+        c = int(inp["cols"])
+        m = rng.normal(size=(2, c)) * mag
+        if lay == 1:
+            return np.ascontiguousarray(m.T).T             # transposed view of a C-ordered array
+        if lay == 2:
+            return np.asfortranarray(m)                    # Fortran-ordered
+        if lay == 3:
+            return m[:, ::-1]                              # reversed columns
+        return m
     raise ValueError(kind)
+
+
+def tab_names(tags, values):
+    """ column names in logical (C) order, parallel to tab_strings: 'tag' for scalars / one-element arrays, 'tag[i, j]' else """
+    out = []
+    for t, v in zip(tags, values):
+        a = np.asarray(v)
+        if a.size > 1:
+            out.extend(f"{t}{list(idx)}" for idx in np.ndindex(*a.shape))
+        else:
+            out.append(t)
+    return out
+
+
+def header_order(head, names):
+    """ permutation that sorts the logical entries into the column order announced by the header line, or None if a
+    name cannot be located (then the logical order is assumed).  The property binds a column to a value through the
+    header; the order in which a multi-dimensional input is flattened is not promised. """
+    pos = []
+    for nm in names:
+        m = re.search(r"(?<![A-Za-z0-9_\]])" + re.escape(nm) + r"(?![A-Za-z0-9_\[])", head)
+        if m is None:
+            return None
+        pos.append(m.start())
+    if len(set(pos)) != len(pos):
+        return None
+    return list(np.argsort(pos, kind="stable"))
 
 
 def tab_strings(values, fmt):
@@ -437,7 +478,7 @@ def check_vti(raw, d, unit, scale, inputs, arrays, probe):
     return None
 
 
-def check_table(raw, w, rows, probe, weak_iters=None):
+def check_table(raw, w, rows, probe, weak_iters=None, names=None):
     """ rows: list of lists of expected value strings (one per successful call).  weak_iters: after a fault only the last
     line is judged, with any of the given iteration numbers """
     sep = "," if w["ext"] == ".csv" else w["sep"]
@@ -446,7 +487,12 @@ def check_table(raw, w, rows, probe, weak_iters=None):
     except Exception as e:  # noqa
         return "table-parse", f"log file is not UTF-8 text ({e})", []
     if weak_iters is not None:
-        ok = any(txt.endswith(sep.join([str(it)] + rows[-1]) + "\n") for it in weak_iters)
+        last = rows[-1]
+        lines_ = txt.split("\n")
+        order_ = header_order(lines_[0], names) if names else None
+        if order_ is not None and len(order_) == len(last):
+            last = [last[k] for k in order_]
+        ok = any(txt.endswith(sep.join([str(it)] + last) + "\n") for it in weak_iters)
         if not ok:
             return ("table-rows", f"after a normally returning call the file does not end with that call's row "
                     f"{sep.join(['<it>'] + rows[-1])!r} (iteration in {sorted(weak_iters)}); tail={txt[-120:]!r}", [])
@@ -461,7 +507,12 @@ def check_table(raw, w, rows, probe, weak_iters=None):
     for inp in w["inputs"]:
         if inp["tag"] not in head:
             return "table-header", f"header {head!r} does not name signal {inp['tag']!r}", []
+    order = header_order(head, names) if names else None
+    if order is not None and order != list(range(len(order))):
+        probe("columns_not_in_logical_order")
     for it, (line, want) in enumerate(zip(lines[1:], rows)):
+        if order is not None and len(order) == len(want):
+            want = [want[k] for k in order]
         cols = line.split(sep)
         if len(cols) != 1 + len(want):
             return ("table-rows", f"row {it}: {len(cols)} columns {cols!r}, expected iteration + {len(want)} values", ["column_count"])
@@ -614,6 +665,7 @@ def execute(case, res, fault=None, sigcache=None):
                         probe("float32_input")
         else:
             values = [tab_value(inp, op["seed"], j) for j, inp in enumerate(w["inputs"])]
+            w["names"] = tab_names([inp["tag"] for inp in w["inputs"]], values)
             for s, v in zip(w["sigs"], values):
                 s.state = v
             tok = "tab:" + ("csv" if spec["ext"] == ".csv" else "sep") + ":" + ",".join(i["kind"] for i in w["inputs"])
@@ -710,10 +762,10 @@ def execute(case, res, fault=None, sigcache=None):
             if raw is None:
                 bad = ("table-file-missing", f"no file {os.path.relpath(w['saveto'], root)!r} after a normally returning call", [])
             elif w["tainted"]:
-                bad = check_table(raw, spec, w["rows"], probe, weak_iters=set(w["its"]))
+                bad = check_table(raw, spec, w["rows"], probe, weak_iters=set(w["its"]), names=w.get("names"))
                 w["its"] = {k + 1 for k in w["its"]}
             else:
-                bad = check_table(raw, spec, w["rows"], probe)
+                bad = check_table(raw, spec, w["rows"], probe, names=w.get("names"))
                 w["its"] = {len(w["rows"])}
         if bad is not None:
             clause, msg, feats = bad
@@ -746,7 +798,7 @@ def execute(case, res, fault=None, sigcache=None):
                 skip("file_excluded_after_fault")
                 continue
             raw = seams.read_file(w["saveto"])
-            b = ("table-file-missing", "file disappeared", []) if raw is None else check_table(raw, spec, w["rows"], probe)
+            b = ("table-file-missing", "file disappeared", []) if raw is None else check_table(raw, spec, w["rows"], probe, names=w.get("names"))
             if b is not None:
                 return V(b[0], f"end of history: {os.path.relpath(w['saveto'], root)!r}: {b[1]}", len(case["ops"]),
                          list(b[2]) + ["end_of_history"]), info
